@@ -64,6 +64,9 @@ META["rule"] += (
 META["rule"] += (
     " " + 'Added after the fifth round: 40 % of the network-type objects carry node weights, a link attribute and a node attribute set by their owner after construction (read back during and at the end of the sequence); cache_clear / clear_cache take part in every sequence three times; the Monte-Carlo significance calls of EventSeries take part as culprits.')
 
+META["rule"] += (
+    " " + "Added after the sixth round: memoised values handed out again must be what they were when stored (cache shadow); a third of the queries are run from two differently seeded states of the process-wide generators and must not end in the same state; knn estimators among the CouplingAnalysis queries; 'copy and change the copy' as a culprit; window dictionaries in the argument ledger.")
+
 CULPRITS = {
     "Surrogates": [
         ("white_noise_surrogates", lambda o: o.white_noise_surrogates()),
@@ -87,8 +90,26 @@ CULPRITS = {
          lambda o: o.event_analysis_significance(
              method="ECA", surrogate="shuffle", n_surr=2))],
 }
+def _change_the_copy(o):
+    """copy(), then state changes on the copy: the object is not its copy."""
+    c = o.copy()
+    A = np.asarray(c.adjacency)
+    if A.any():
+        for name in list(c.graph.es.attribute_names()) + ["w"]:
+            c.set_link_attribute(name, (A != 0) * 6.75)
+        c.del_link_attribute("w")
+    c.node_weights = np.arange(1.0, c.N + 1.0)
+    if A.any() and not c.directed:
+        try:
+            c.randomly_rewire(2)
+        except Exception:  # noqa
+            pass
+    return c
+
+
 NET_CULPRITS = [
     ("copy", lambda o: o.copy()),
+    ("copy-and-change-the-copy", _change_the_copy),
     ("splitted_copy", lambda o: o.splitted_copy()),
     ("undirected_copy", lambda o: o.undirected_copy()),
     ("permuted_copy", lambda o: o.permuted_copy(
@@ -220,6 +241,7 @@ def sequence_case(ctx, sub, r, cid, call, agree, SC, S, snapshot, brief,
             ctx.violation(f"{sub.name}:<constructor>:mutates-caller-input:"
                           f"{key}", {"class": sub.name, "input": key}, cid)
             ledger_in[key] = arr.copy()
+    SC.forget_values()
     allq = sub.queries(obj, m)
     culprit_only = list(CULPRITS.get(sub.name, []))
     if hasattr(obj, "sp_A") and sub.name not in (
@@ -276,6 +298,26 @@ def sequence_case(ctx, sub, r, cid, call, agree, SC, S, snapshot, brief,
         if not agree(call(q, f2), base[label])[1]:
             nondet.add(label)
             ctx.count("nondeterministic_culprit_only")
+        # the process-wide random generators belong to the user: a query
+        # may draw from them, it must not put them into a state of its own
+        # (started from two different states it must not end in the same)
+        import random as _pyr
+        ends = []
+        for sd in (1001, 2002):
+            with ctx.quiet():
+                f3 = sub.build(m)
+            np.random.seed(sd)
+            _pyr.seed(sd)
+            with warnings.catch_warnings():
+                warnings.simplefilter("ignore")
+                ctx.call(q, f3)
+            st = np.random.get_state()
+            ends.append((st[1].tobytes(), st[2], _pyr.getstate()))
+        ctx.count("generator_state_probes")
+        if ends[0][:2] == ends[1][:2] or ends[0][2] == ends[1][2]:
+            ctx.violation(f"{sub.name}:{label}:resets-the-global-random-"
+                          "generator", {"class": sub.name, "query": label},
+                          cid)
     seq = [(lb, q, False) for lb, q in Q] + \
         [(lb, q, True) for lb, q in culprit_only]
     order = r.permutation(len(seq))
@@ -291,7 +333,15 @@ def sequence_case(ctx, sub, r, cid, call, agree, SC, S, snapshot, brief,
     touched = {}
     for pos, (label, q, culprit) in enumerate(seq):
         mk = SC.mark()
+        del SC.MODIFIED[:]
         res = call(q, obj)
+        for cn_, mn_ in set(SC.MODIFIED):
+            # a memoised value was handed out again and is no longer what
+            # it was when it was stored (some earlier query edited it)
+            ctx.violation(f"{sub.name}:{cn_}.{mn_}:memoised-value-modified",
+                          {"class": sub.name, "query": label,
+                           "sequence": [x[0] for x in seq[:pos + 1]]}, cid)
+        del SC.MODIFIED[:]
         touched[label] = {(e[0], e[1]) for e in SC.EVENTS[mk:]}
         ctx.evals()
         # (a') inputs still intact
@@ -646,6 +696,37 @@ def argument_case(ctx, r, cid):
             ctx.violation(f"InteractingNetworks.{mname}:mutates-caller-"
                           "list", {"now": [l1, l2], "was": [b1, b2]}, cid)
             l1[:], l2[:] = b1, b2
+    # a window dictionary of the caller (with the "equal bounds = whole
+    # range" convention on some axes) handed to two data objects in turn
+    from pyunicorn.core import Data
+    from pyunicorn.climate import ClimateData
+    for cls_ in (Data, ClimateData):
+        win = {"time_min": 0.0, "time_max": 0.0, "lat_min": 0.0,
+               "lat_max": 0.0, "lon_min": 0.0, "lon_max": 0.0}
+        if r.random() < 0.5:
+            win.update(time_min=2.0, time_max=9.0)
+        if r.random() < 0.5:
+            win.update(lat_min=-90.0, lat_max=90.0, lon_min=-10.0,
+                       lon_max=400.0)
+        win0 = dict(win)
+        for T_ in (12, 30):
+            g_ = GeoGrid(np.arange(float(T_)), lat, lon, silence_level=3)
+            obs_ = np.round(r.normal(size=(T_, n)) * 8) / 8
+            kw_ = {"time_cycle": 3} if cls_ is ClimateData else {}
+            with warnings.catch_warnings():
+                warnings.simplefilter("ignore")
+                okd, d_ = ctx.call(cls_, observable=obs_, grid=g_,
+                                   window=win, silence_level=3, **kw_)
+                if okd:
+                    ctx.call(d_.set_window, win)
+            ctx.evals()
+            ctx.count("window_dicts_checked")
+            if win != win0:
+                ctx.violation(f"{cls_.__name__}.set_window:mutates-caller-"
+                              "window-dictionary",
+                              {"now": dict(win), "was": win0}, cid)
+                win.clear()
+                win.update(win0)
     # recurrence_plot's rp.supremum_distance_matrix() is a cached array
     cached_D = rp.supremum_distance_matrix()
     cached_D0 = cached_D.copy()
